@@ -1868,7 +1868,7 @@ def _park_standby(w):
     w.stats['standby-parked'] += 1
 
 
-SCHED_PIDS = ('C01', 'C03', 'C04', 'C05', 'C08')
+SCHED_PIDS = ('C01', 'C02', 'C03', 'C04', 'C05', 'C08')
 
 
 class _SchedView(object):
